@@ -359,7 +359,7 @@ impl Prop for C04 {
     }
     fn cases(&self, tier: Tier) -> u64 {
         match tier {
-            Tier::Quick => 8_000,
+            Tier::Quick => 30_000,
             Tier::Thorough => 300_000,
         }
     }
